@@ -264,6 +264,12 @@ func c17Observe(c *Ctx, files map[string]string, mode string, cf c17Conf, tag st
 		opts.Init = cf.initOptions()
 	case "change", "change-dirty":
 		opts.Init = c17AllOn().initOptions()
+	case "change-from-rules":
+		// the session starts with ignore rules of both kinds; the settings that arrive later replace them (also by none)
+		st := c17AllOn()
+		st.IgnoreFile = []string{"sub/"}
+		st.IgnoreErr = []string{"zoo1.lua"}
+		opts.Init = st.initOptions()
 	case "json":
 		f["luahelper.json"] = cf.jsonFile()
 		opts.Init = c17AllOn().initOptions()
@@ -290,7 +296,7 @@ func c17Observe(c *Ctx, files map[string]string, mode string, cf c17Conf, tag st
 			return nil, nil, err
 		}
 	}
-	if mode == "change" || mode == "change-dirty" {
+	if mode == "change" || mode == "change-dirty" || mode == "change-from-rules" {
 		// the first configuration notification is ignored by design
 		srv.Notify("workspace/didChangeConfiguration", c17AllOn().settings())
 		srv.Notify("workspace/didChangeConfiguration", cf.settings())
@@ -456,6 +462,9 @@ func runC17(c *Ctx) {
 		if len(jobs)%3 == 0 {
 			jobs = append(jobs, job{cf, "change-dirty"})
 		}
+		if len(jobs)%4 == 1 {
+			jobs = append(jobs, job{cf, "change-from-rules"})
+		}
 		if len(cf.IgnoreErr) != 1 || (cf.IgnoreErr[0] != "(" && cf.IgnoreErr[0] != "[" && cf.IgnoreErr[0] != "*") {
 			jobs = append(jobs, job{cf, "json"})
 		}
@@ -466,7 +475,7 @@ func runC17(c *Ctx) {
 		c.Eval(1)
 		files := zoo
 		bmode := j.mode
-		if bmode == "change-dirty" {
+		if bmode == "change-dirty" || bmode == "change-from-rules" {
 			bmode = "change"
 		}
 		b := base[bmode]
